@@ -40,6 +40,9 @@ GC = ["-XX:ParallelGCThreads=4"]
 KIND_ARGS = {"exe": [], "pie": ["-pie"], "shared": ["-shared"]}
 STRIP_ARGS = {"none": [], "all": ["--strip-all"], "debug": ["--strip-debug"], "discard-all": ["--discard-all"]}
 DUPS = ["dup_ws", "dup_sw", "dup_ww", "dup_cc"]
+# visibility merging (SymTabs.tla MergedVis): defined GLOBAL DEFAULT in the second object, referenced from the first
+# with the given visibility through a weak (w) or strong (s) undefined reference
+VM = {"vm_wh": ("weak", "hidden"), "vm_sh": ("strong", "hidden"), "vm_wp": ("weak", "protected"), "vm_sp": ("strong", "protected")}
 IMPORTS = {"imp_f": ("GLOBAL", "FUNC"), "imp_w": ("WEAK", "FUNC"), "imp_d": ("GLOBAL", "OBJECT")}
 
 
@@ -86,6 +89,8 @@ def build_program(d, universe):
             f"    call {pull}@PLT", f"    call {pull_t}@PLT", "    call imp_f@PLT", "    .weak imp_w", "    call imp_w@PLT",
             "    mov imp_d@GOTPCREL(%rip), %rax",
             "    mov dup_cc@GOTPCREL(%rip), %rax",       # unreferenced common symbols are not retained by wild
+            *[ln for n, (b, v) in VM.items() for ln in
+              ([f"    .weak {n}"] if b == "weak" else []) + [f"    .{v} {n}", f"    mov {n}@GOTPCREL(%rip), %rax"]],
             "    ret", ".size _start,.-_start"]
     texts["m"] = "\n".join(main) + "\n"
     texts["s"] = ""
@@ -98,6 +103,7 @@ def build_program(d, universe):
     # names defined twice: the selected definition must appear exactly once
     texts["m"] += symgen.define("dup_ws", "m", "WEAK") + symgen.define("dup_sw", "m", "GLOBAL") + \
         symgen.define("dup_ww", "m", "WEAK") + ".comm dup_cc,8,8\n"
+    texts["s"] += "".join(symgen.define(n, "s", "GLOBAL", "DEFAULT", "OBJECT") for n in VM)
     texts["s"] += symgen.define("dup_ws", "s", "GLOBAL") + symgen.define("dup_sw", "s", "WEAK") + \
         symgen.define("dup_ww", "s", "WEAK") + ".comm dup_cc,16,8\n"
     objs = {f: symgen.cached_obj(d, texts[f], stem={"m": "main", "s": "sec", "a": "arc", "t": "thin"}[f]) for f in "msat"}
@@ -229,6 +235,20 @@ def compare(e, rec, linker):
         rs = [r for r in sym.get("dup_cc", []) if r["defined"]]
         if len(rs) != 1 or rs[0]["size"] != 16 or rs[0]["type"] != "OBJECT":
             yield ("symtab:common-merge", None, f"common symbol dup_cc: {[(r['size'], r['type']) for r in rs]} (expected once, size 16)")
+    # visibility merging: the most constraining visibility of all occurrences, whatever the binding of the reference
+    for n, (_b, v) in VM.items():
+        dd = [r for r in dyn.get(n, []) if r["defined"]]
+        if v == "hidden" and dd:
+            yield (f"dynsym:hidden-by-reference-exported:{_b}", None,
+                   f"'{n}' is referenced with hidden visibility ({_b} reference) from another object: merged visibility is HIDDEN, but it is defined in .dynsym ({dd[0]['bind']} {dd[0]['vis']})")
+        if v == "protected" and dd and dd[0]["vis"] != "PROTECTED":
+            yield (f"dynsym:protected-by-reference-visibility:{_b}", None,
+                   f"'{n}' is referenced with protected visibility ({_b} reference): its .dynsym entry must be PROTECTED, is {dd[0]['vis']}")
+        if sym is not None:
+            rs = [r for r in sym.get(n, []) if r["defined"]]
+            if len(rs) == 1 and rs[0]["bind"] != "LOCAL" and rs[0]["vis"] != v.upper():
+                yield (f"symtab:merged-visibility:{_b}-{v}", None,
+                       f"'{n}' ({_b} {v} reference + default definition) is {rs[0]['bind']} {rs[0]['vis']} in .symtab; merged visibility is {v.upper()}")
     # imports
     for n, (bind, typ) in IMPORTS.items():
         rs = dyn.get(n, [])
